@@ -344,29 +344,15 @@ def check_misc_combine(rep, prog):
                 return Rat.atom(x.text)
         return None
 
-    def resolve_source(v, A):
-        """(index per axis of the data array) for an element read from the data array through transpositions, else None"""
-        if not (isinstance(v, mx.Sym) and v.struct and v.struct[0] == 'index'):
+    from sa import tis
+
+    def resolve_source(v, A, tvars=()):
+        """(index per axis of the data array) of the element of v at the implicit positions tvars (sa.tis), else None"""
+        try:
+            root, idx = tis.at(v, list(tvars), lambda x: x is A)
+        except tis.Unfollowed:
             return None
-        base, key = v.struct[1], v.struct[2]
-        key = list(key) if isinstance(key, tuple) else [key]
-        while base is not A:
-            rec = mx.method_call(base, 'transpose')
-            perm = None
-            if rec is not None:
-                perm = base.struct[2]
-                perm = perm[0] if len(perm) == 1 and isinstance(perm[0], (tuple, list)) else perm
-            else:
-                c = mx.call_of(base, 'transpose')
-                if c is not None and len(c[0]) == 2:
-                    rec, perm = c[0][0], c[0][1]
-            if rec is None or perm is None or len(perm) != len(key):
-                return None
-            new = [None] * len(key)
-            for pos, ax in enumerate(perm):
-                new[ax] = key[pos]
-            base, key = rec, new
-        return key
+        return idx
     n_ok = 0
     verdicts = []
     for D, pair, paths, nd_ranges, A in results:
@@ -397,8 +383,18 @@ def check_misc_combine(rep, prog):
                         raise AlgebraError('loop over %s' % (mx.show(itv) if itv is not None else '?'))
                     return mx.to_rat(c[0][0], leaf)
                 zc = mx.call_of(res, 'zeros')
-                acc = [e for e in events if e[0] == 'augitem' and mx.show(e[1]) == mx.show(res)]
-                over = [e for e in events if e[0] == 'setitem' and mx.show(e[4]) == mx.show(res)]
+                acc = [(e[2], e[3], e[4]) for e in events if e[0] == 'augitem' and mx.show(e[1]) == mx.show(res)]
+                over = []
+                for e in events:
+                    if e[0] == 'setitem' and mx.show(e[4]) == mx.show(res):
+                        # R[key] = R[key] + X  is an accumulation
+                        terms = mx.factors(e[3], '+')
+                        selfs = [t_ for t_ in terms if isinstance(t_, mx.Sym) and t_.struct and t_.struct[0] == 'index' and mx.show(t_.struct[1]) == mx.show(res) and mx.show(t_.struct[2]) == mx.show(e[2])]
+                        rest_ = [t_ for t_ in terms if t_ not in selfs]
+                        if len(selfs) == 1 and len(rest_) == 1:
+                            acc.append((e[2], 'Add', rest_[0]))
+                        else:
+                            over.append(e)
                 if zc is not None and over:
                     bad.append('the result is overwritten, not accumulated into: %s[%s] = ...' % (mx.show(res)[:20], mx.show(over[0][2])[:30]))
                 elif zc is not None and acc:
@@ -408,13 +404,20 @@ def check_misc_combine(rep, prog):
                     got_shape = [mx.to_rat(x, leaf) for x in shp]
                     if len(got_shape) != len(want_shape) or not all(a_.equals(b_) for a_, b_ in zip(got_shape, want_shape)):
                         bad.append('result shape (%s)' % ', '.join(x.canon() for x in got_shape))
-                    if len(acc) != 1 or acc[0][3] != 'Add':
+                    if len(acc) != 1 or acc[0][1] != 'Add':
                         bad.append('%d accumulation statements' % len(acc))
-                    for e in acc[:1]:
-                        tkey = list(e[2]) if isinstance(e[2], tuple) else [e[2]]
-                        skey = resolve_source(e[4], A)
+                    for akey, _aop, aval in acc[:1]:
+                        tkey = list(akey) if isinstance(akey, tuple) else [akey]
+                        tkey = tkey + [slice(None)] * (len(shp) - len(tkey))
+                        try:
+                            tkey, tvars = tis.store_positions(tuple(tkey), lambda ax: shp[ax])
+                        except tis.Unfollowed as ex:
+                            raise mx.Undecidable(str(ex))
+                        for tv_, ext_ in tvars:
+                            nd_ranges[tv_.text] = ext_
+                        skey = resolve_source(aval, A, [tv_ for tv_, _ in tvars])
                         if skey is None or len(skey) != D or len(tkey) != 1 + len(rest):
-                            bad.append('accumulates %s' % mx.show(e[4])[:50])
+                            bad.append('accumulates %s' % mx.show(aval)[:50])
                             continue
                         tk = [mx.to_rat(x, leaf) for x in tkey]
                         sk = [mx.to_rat(x, leaf) for x in skey]
@@ -538,11 +541,51 @@ def run(rep, prog, tier):
     c2 = prog.func(SM, 'Spectrum.combine_two_pops')
     check_combine_two(rep, prog, m, c2, rel)
     cp = prog.func(SM, 'Spectrum.combine_pops')
-    t = ast.unparse(cp)
-    okc = 'tocombine = sorted(tocombine)' in t and 'for right_pop in tocombine[1:][::-1]' in t and 'result = result.combine_two_pops([tocombine[0], right_pop])' in t
-    rep.ob('R-IDX', 'Spectrum.combine_pops', okc, 'merges the highest remaining population into the lowest, from the top down', rel, cp.lineno, what='descending merge keeps the remaining 1-based numbers valid')
-    okl = "result.pop_ids[tocombine[0] - 1] = '+'.join((self.pop_ids[_ - 1] for _ in tocombine))" in t
-    rep.ob('R-IDX', 'combine_pops label', okl, 'label of the merged population joins the original labels in ascending order', rel, cp.lineno, what='merged label')
+    # every set of two or more of up to five populations, in ascending and in shuffled order, with and without labels: the chain of
+    # pairwise merges (abstract execution; the pairwise merge itself is summarised above)
+    badc, badl, n_runs = [], [], 0
+    from sa import alpha as _alpha
+    known_cp = _alpha.load_table().get('__params__', {}).get(rel)
+    known_cp = set(known_cp) if known_cp is not None else None
+    try:
+        for P in (2, 3, 4, 5):
+            for r_ in range(2, P + 1):
+                for comb_ in itertools.combinations(range(1, P + 1), r_):
+                    for order in (list(comb_), list(comb_)[::-1], list(comb_)[1:] + list(comb_)[:1]):
+                        for labelled in (True, False):
+                            ids = ['pop%d' % k for k in range(1, P + 1)] if labelled else None
+                            it = mx.Interp(prog, m, known_functions=known_cp)
+                            paths = [p_ for p_ in it.run(cp, {'self': mx.Sym('self', truth=True, attrs={'pop_ids': ids, 'Npop': P, 'ndim': P}), 'tocombine': list(order)}) if p_[0][0] == 'return']
+                            n_runs += 1
+                            tag = '%d populations, tocombine=%s%s' % (P, order, '' if labelled else ', no labels')
+                            if len(paths) != 1:
+                                badc.append('%s: %d returning paths' % (tag, len(paths)))
+                                continue
+                            outcome, events, _d = paths[0]
+                            # unwind result = (((self.c2p(a)).c2p(b)) ...)
+                            chain = []
+                            v = outcome[1]
+                            while mx.method_call(v, 'combine_two_pops') is not None:
+                                a_ = v.struct[2]
+                                chain.append(list(a_[0]) if len(a_) == 1 and isinstance(a_[0], (list, tuple)) else None)
+                                v = mx.method_call(v, 'combine_two_pops')
+                            chain.reverse()
+                            lo = min(order)
+                            want = [[lo, hi] for hi in sorted(order, reverse=True) if hi != lo]
+                            if mx.show(v) != 'self' or [sorted(c_) if c_ else c_ for c_ in chain] != want:
+                                badc.append('%s: merges %s' % (tag, chain))
+                            sets = [e for e in events if e[0] == 'setitem' and mx.show(e[4]).endswith('.pop_ids')]
+                            if labelled:
+                                wl = '+'.join('pop%d' % k for k in sorted(order))
+                                if len(sets) != 1 or sets[0][2] != lo - 1 or sets[0][3] != wl or not mx.show(sets[0][4]).startswith(mx.show(outcome[1])[:20]):
+                                    badl.append('%s: label %s' % (tag, [(mx.show(e[2]), mx.show(e[3])) for e in sets]))
+                            elif sets:
+                                badl.append('%s: labels written although the spectrum has none' % tag)
+    except mx.Undecidable as e:
+        badc.append('combine_pops is not recognised: %s' % e)
+    rep.ob('R-IDX', 'Spectrum.combine_pops', not badc, '; '.join(badc[:2]) if badc else 'merges the highest remaining population into the lowest, from the top down (%d runs)' % n_runs, rel, cp.lineno,
+           what='descending merge keeps the remaining 1-based numbers valid')
+    rep.ob('R-IDX', 'combine_pops label', not badl, '; '.join(badl[:2]) if badl else 'label of the merged population joins the original labels in ascending order, in the slot of the lowest', rel, cp.lineno, what='merged label')
     # ---- reorder_pops -------------------------------------------------------------------------------------------------------
     ro = prog.func(SM, 'Spectrum.reorder_pops')
     t = ast.unparse(ro)
